@@ -48,12 +48,18 @@ namespace bloch::update {
 
 #ifdef BLOCH_VERIF
         // Verification hooks (guarded): a settable clock and a stubbed release lookup so the
-        // update decisions can be driven offline.  BLOCH_VERIF_NOW=<seconds since epoch>,
+        // update decisions can be driven offline.  BLOCH_VERIF_NOW=<seconds since epoch>[.<ms>],
         // BLOCH_VERIF_LATEST_TAG=<tag> ("!fail" simulates a failed lookup).
         std::chrono::system_clock::time_point verifNow() {
-            if (const char* s = std::getenv("BLOCH_VERIF_NOW"); s && *s)
-                return std::chrono::system_clock::time_point(
-                    std::chrono::seconds(std::strtoll(s, nullptr, 10)));
+            if (const char* s = std::getenv("BLOCH_VERIF_NOW"); s && *s) {
+                // whole seconds, optionally followed by ".<milliseconds>"
+                char* end = nullptr;
+                auto tp = std::chrono::system_clock::time_point(
+                    std::chrono::seconds(std::strtoll(s, &end, 10)));
+                if (end && *end == '.')
+                    tp += std::chrono::milliseconds(std::strtoll(end + 1, nullptr, 10));
+                return tp;
+            }
             return std::chrono::system_clock::now();
         }
         bool verifOffline() { return std::getenv("BLOCH_VERIF_LATEST_TAG") != nullptr; }
